@@ -79,13 +79,15 @@ theorem mem_visits_of (s : State) (now : Nat) (u : List BList) (ty : BList) (ch 
   exact ⟨inst, ⟨⟨e, ⟨he, huse⟩, ha⟩, by simpa using hu⟩, rfl⟩
 
 /-- **followup_contract, part 1.**  `resolve_updated_instances` on an update that touches `inst`:
-    if a usable PTR of a browsed type points to `inst` but it cannot be resolved from the
+    if a usable PTR of a type that is browsed and not cache-only (`browse`, not `browse_cache`:
+    a cache-only browse sends no query, so it queues no follow-up - repair of D23b) points to
+    `inst` but it cannot be resolved from the
     cache (no usable SRV - "only the PTR arrived" - or no usable address of its host) and no
     follow-up is pending for it, then `Resolve(inst, 1)` is queued for `now + 500` with a timer
     (so the daemon wakes for it, C12), and `inst` is marked pending. -/
 theorem followup_queued (s : State) (now : Nat) (u : List BList) (ty : BList) (ch : Nat) (es : List Entry) (e : Entry)
     (inst : BList) (hu : inst ∈ u) (hq : s.queriers.lookup ty = some ch) (hes : (ty, es) ∈ s.cache.ptr) (he : e ∈ es)
-    (ha : aliasOf e = some inst) (huse : usable now e = true)
+    (ha : aliasOf e = some inst) (huse : usable now e = true) (hact : ty ∉ s.cacheOnly)
     (hinv : (resolveFromCache s.cache now ty inst).valid = false) (hnp : inst ∉ s.pending) :
     (⟨now + 500, .resolve inst 1⟩ : Rerun) ∈ (resolveUpdated s now u).1.reruns ∧
     (now + 500) ∈ (resolveUpdated s now u).1.timers ∧ inst ∈ (resolveUpdated s now u).1.pending := by
@@ -98,7 +100,7 @@ theorem followup_queued (s : State) (now : Nat) (u : List BList) (ty : BList) (c
   simp only [hne, Bool.false_eq_true, if_false]
   apply addPendings_new
   · simp only [List.mem_eraseDups, List.mem_map, List.mem_filter]
-    exact ⟨(ty, ch, inst), ⟨hv, by simp [visitValid, hinv]⟩, rfl⟩
+    exact ⟨(ty, ch, inst), ⟨⟨hv, by simp [visitValid, hinv]⟩, by simpa using hact⟩, rfl⟩
   · simp only [markResolved, List.mem_filter, not_and]
     intro h
     exact absurd h hnp
